@@ -118,6 +118,19 @@ package engine
 //@   ensures [newer_first] result == (len(fname(dirs[i])) > len(fname(dirs[j])) || (len(fname(dirs[i])) == len(fname(dirs[j])) && fname(dirs[i]) > fname(dirs[j])))
 
 
+// Recovery: the replayed log files are removed only after the replay returned without error AND the replayed
+// rows were flushed; the names removed are the ones the replay reported (planned in DESIGN §5 C01).
+//@ prop C01
+//@ func (*shard).syncReplayWal
+//@   ghost st int = 0
+//@   call (*WAL).Replay
+//@     set st = (ret1 == nil ? 1 : -1)
+//@   call (*shard).ForceFlush
+//@     requires [flush_after_replay] st == 1
+//@     set st = 2
+//@   call (*WAL).Remove
+//@     requires [remove_after_flush] st == 2 && arg0 == walFileNames
+
 // ================================================================ C02: out-of-order files, newest wins
 //@ prop C02
 // Out-of-order files are read oldest to newest; the record just read comes from the NEWER file and must be the
